@@ -219,6 +219,19 @@ pub fn gen_table(rng: &mut Rng, cfg: &TableCfg) -> Table {
     t
 }
 
+/// Moves the priorities of a table below zero and / or spreads them widely (priorities are
+/// signed 64-bit numbers; nothing restricts them to 0..=99).  Returns (negative, wide).
+pub fn widen_priorities(table: &mut Table, rng: &mut Rng) -> (bool, bool) {
+    let shift = if rng.chance(2, 3) { rng.range(1, 99) as i64 } else { 0 };
+    let scale = if shift == 0 || rng.chance(1, 2) { [2, 13, 100, 1000][rng.below(4)] } else { 1 };
+    for o in table.iter_mut() {
+        if let Some(b) = o.bin.as_mut() {
+            b.prio = (b.prio - shift) * scale;
+        }
+    }
+    (shift > 0, scale > 1)
+}
+
 // ---------------------------------------------------------------------------------------------
 // tree generation
 
